@@ -2,13 +2,19 @@ package common
 
 // TAKEN FROM HASHICORP LRU
 
-import "container/list"
+import (
+	"container/list"
+	"sync"
+)
 
 // EvictCallback is used to get a callback when a cache entry is evicted
 type EvictCallback func(key interface{}, value interface{})
 
-// LRU implements a non-thread safe fixed size LRU cache
+// LRU implements a fixed size LRU cache. A mutex makes it safe for concurrent
+// use: the stores' caches are read by the service API (Node.GetBlock ...)
+// while the gossip routines write to them.
 type LRU struct {
+	mu        sync.Mutex
 	size      int
 	evictList *list.List
 	items     map[interface{}]*list.Element
@@ -34,6 +40,9 @@ func NewLRU(size int, onEvict EvictCallback) *LRU {
 
 // Purge is used to completely clear the cache
 func (c *LRU) Purge() {
+	c.mu.Lock()
+	defer c.mu.Unlock()
+
 	for k, v := range c.items {
 		if c.onEvict != nil {
 			c.onEvict(k, v.Value.(*entry).value)
@@ -45,6 +54,9 @@ func (c *LRU) Purge() {
 
 // Add adds a value to the cache.  Returns true if an eviction occurred.
 func (c *LRU) Add(key, value interface{}) bool {
+	c.mu.Lock()
+	defer c.mu.Unlock()
+
 	// Check for existing item
 	if ent, ok := c.items[key]; ok {
 		c.evictList.MoveToFront(ent)
@@ -67,6 +79,9 @@ func (c *LRU) Add(key, value interface{}) bool {
 
 // Get looks up a key's value from the cache.
 func (c *LRU) Get(key interface{}) (value interface{}, ok bool) {
+	c.mu.Lock()
+	defer c.mu.Unlock()
+
 	if ent, ok := c.items[key]; ok {
 		c.evictList.MoveToFront(ent)
 		return ent.Value.(*entry).value, true
@@ -77,6 +92,9 @@ func (c *LRU) Get(key interface{}) (value interface{}, ok bool) {
 // Contains checks if a key is in the cache, without updating the recent-ness
 // or deleting it for being stale.
 func (c *LRU) Contains(key interface{}) (ok bool) {
+	c.mu.Lock()
+	defer c.mu.Unlock()
+
 	_, ok = c.items[key]
 	return ok
 }
@@ -84,6 +102,9 @@ func (c *LRU) Contains(key interface{}) (ok bool) {
 // Peek returns the key value (or undefined if not found) without updating
 // the "recently used"-ness of the key.
 func (c *LRU) Peek(key interface{}) (value interface{}, ok bool) {
+	c.mu.Lock()
+	defer c.mu.Unlock()
+
 	if ent, ok := c.items[key]; ok {
 		return ent.Value.(*entry).value, true
 	}
@@ -93,6 +114,9 @@ func (c *LRU) Peek(key interface{}) (value interface{}, ok bool) {
 // Remove removes the provided key from the cache, returning if the
 // key was contained.
 func (c *LRU) Remove(key interface{}) bool {
+	c.mu.Lock()
+	defer c.mu.Unlock()
+
 	if ent, ok := c.items[key]; ok {
 		c.removeElement(ent)
 		return true
@@ -102,6 +126,9 @@ func (c *LRU) Remove(key interface{}) bool {
 
 // RemoveOldest removes the oldest item from the cache.
 func (c *LRU) RemoveOldest() (interface{}, interface{}, bool) {
+	c.mu.Lock()
+	defer c.mu.Unlock()
+
 	ent := c.evictList.Back()
 	if ent != nil {
 		c.removeElement(ent)
@@ -113,6 +140,9 @@ func (c *LRU) RemoveOldest() (interface{}, interface{}, bool) {
 
 // GetOldest returns the oldest entry
 func (c *LRU) GetOldest() (interface{}, interface{}, bool) {
+	c.mu.Lock()
+	defer c.mu.Unlock()
+
 	ent := c.evictList.Back()
 	if ent != nil {
 		kv := ent.Value.(*entry)
@@ -123,6 +153,9 @@ func (c *LRU) GetOldest() (interface{}, interface{}, bool) {
 
 // Keys returns a slice of the keys in the cache, from oldest to newest.
 func (c *LRU) Keys() []interface{} {
+	c.mu.Lock()
+	defer c.mu.Unlock()
+
 	keys := make([]interface{}, len(c.items))
 	i := 0
 	for ent := c.evictList.Back(); ent != nil; ent = ent.Prev() {
@@ -134,6 +167,9 @@ func (c *LRU) Keys() []interface{} {
 
 // Len returns the number of items in the cache.
 func (c *LRU) Len() int {
+	c.mu.Lock()
+	defer c.mu.Unlock()
+
 	return c.evictList.Len()
 }
 
